@@ -131,13 +131,41 @@ def audit(pid: str, extra_modules=()):
     ok, log, build_s = lake_build([mod, "KoalaVerif.Model.All"] + list(extra_modules))
     res = dict(ok=ok, obligations=[], log=log[-6000:], build_s=round(build_s, 2), module=mod,
                forbidden=forbidden_scan())
-    names = theorems_of(props) if props.exists() else []
+    files = [props] if props.exists() else []
     for em in extra_modules:
-        p = LEAN / (em.replace(".", "/") + ".lean")
-        if p.exists():
-            names += theorems_of(p)
+        q = LEAN / (em.replace(".", "/") + ".lean")
+        if q.exists():
+            files.append(q)
+    per_file = {f: theorems_of(f) for f in files}
+    names = [n for f in files for n in per_file[f]]
     if not ok:
-        res["obligations"] = [dict(name=n, axioms=None, ok=False) for n in names]
+        # name the obligations that broke: map every error line to the theorem declared above it; theorems of a module that
+        # failed for another reason (an import that did not build) are all unconfirmed
+        broken = set()
+        for f in files:
+            rel = str(f.relative_to(LEAN))
+            lines = [int(m.group(1)) for m in re.finditer(r"error: " + re.escape(rel) + r":(\d+):", log)]
+            if lines:
+                decl = []       # (line, name)
+                src_lines = f.read_text().splitlines()
+                stack = []
+                for i, line in enumerate(src_lines, 1):
+                    m = re.match(r"^namespace\s+([\w\.]+)", line)
+                    if m: stack.append(m.group(1)); continue
+                    m = re.match(r"^end\s+([\w\.]+)", line)
+                    if m and stack and stack[-1] == m.group(1): stack.pop(); continue
+                    m = THEOREM_RE.match(line)
+                    if m: decl.append((i, ".".join(stack + [m.group(1)])))
+                for ln in lines:
+                    prev = [n for (i, n) in decl if i <= ln]
+                    if prev: broken.add(prev[-1])
+            olean = LEAN / ".lake" / "build" / "lib" / "lean" / (str(f.relative_to(LEAN))[:-5] + ".olean")
+            if not lines and not (olean.exists() and olean.stat().st_mtime >= f.stat().st_mtime):
+                broken.update(per_file[f])           # did not build although it has no error of its own: an import broke
+        if not broken:
+            broken = set(names)
+        res["obligations"] = [dict(name=n, axioms=None, ok=(n not in broken)) for n in names]
+        res["unconfirmed_note"] = "build failed: obligations not listed as broken were not re-confirmed by the kernel in this run"
         return res
     audit_dir = LEAN / "Audit"
     audit_dir.mkdir(exist_ok=True)
